@@ -1,6 +1,7 @@
 import Driver.Proto
 import Driver.C06
 import Verif.Spec.C09XmlLex
+import Verif.Model.C09SvgText
 /-! driver handlers for the XML/SVG slice of C09 (ops `spec.c09.xml.*`) -/
 namespace Verif.Driver.C09Xml
 open Verif Verif.Driver
@@ -72,8 +73,27 @@ def agree : Handler := fun args => do
     let b := (dropPi false (view ts)).map normAttrWs
     .ok (strBytes (if a == b && piTargets mine == piTargets ts then "1" else "0"))
 
+/-- `model.c09.xml.svgtext n data` → bytes written by the `TextToken` branch of svg.go (outside `style`) -/
+def svgtext : Handler := fun args => do
+  let n ← argNat args 0
+  let d ← argChars args 1
+  .ok (charsToBytes (Model.C09SvgText.svgTextData n d))
+
+/-- `model.c09.xml.svgcdata n data text` → bytes written by the `CDATAToken` branch of svg.go (outside `style`) -/
+def svgcdata : Handler := fun args => do
+  let n ← argNat args 0
+  let d ← argChars args 1
+  let t ← argChars args 2
+  .ok (charsToBytes (Model.C09SvgText.svgCData false (fun _ => none) n d t))
+
+/-- `model.c09.xml.svgattr body` → bytes written for a quoted attribute value with content `body` that is not rewritten -/
+def svgattr : Handler := fun args => do
+  let b ← argChars args 0
+  .ok (charsToBytes (Model.C09SvgText.svgAttrWrite (Model.C09SvgText.svgAttrPre b)))
+
 def handlers : List (String × Handler) :=
   [("spec.c09.xml.tokens", tokens), ("spec.c09.xml.cmp", cmp), ("spec.c09.xml.contract", contract),
-   ("spec.c09.xml.agree", agree)]
+   ("spec.c09.xml.agree", agree), ("model.c09.xml.svgtext", svgtext), ("model.c09.xml.svgcdata", svgcdata),
+   ("model.c09.xml.svgattr", svgattr)]
 
 end Verif.Driver.C09Xml
